@@ -833,3 +833,39 @@ func Uses(in ssa.Instruction, v ssa.Value) bool {
 	}
 	return false
 }
+
+// UniqueStore returns the single value stored directly into alloc (nil if none or several).
+func UniqueStore(al *ssa.Alloc) ssa.Value {
+	var src ssa.Value
+	for _, ref := range *al.Referrers() {
+		if st, ok := ref.(*ssa.Store); ok && st.Addr == ssa.Value(al) {
+			if src != nil {
+				return nil
+			}
+			src = st.Val
+		}
+	}
+	return src
+}
+
+// Resolve looks through conversions and loads of single-assignment spilled locals
+// (variables captured by closures or address-taken become Alloc+Store+Load in SSA).
+func Resolve(v ssa.Value) ssa.Value {
+	for i := 0; i < 16; i++ {
+		v = Unwrap(v)
+		ld, ok := v.(*ssa.UnOp)
+		if !ok || ld.Op != token.MUL {
+			return v
+		}
+		al, ok := ld.X.(*ssa.Alloc)
+		if !ok {
+			return v
+		}
+		src := UniqueStore(al)
+		if src == nil {
+			return v
+		}
+		v = src
+	}
+	return v
+}
